@@ -330,6 +330,9 @@ def check_footer(ctx, ht, rule, select=lambda f: True):
             if d is None or augs:
                 defs = [n for n in ast.walk(f.node) if isinstance(n, ast.Assign) and len(n.targets) == 1
                         and U(n.targets[0]) == name]
+                if len(defs) == 2 and not augs:
+                    from ..core import conditional_def
+                    return conditional_def(f.node, name)
                 if len(defs) != 1:
                     return None
                 expr = defs[0].value
@@ -593,6 +596,16 @@ def check_pairing(ctx, rule):
                             feeders.add(U(g.test.comparators[0]))
                         else:
                             feeders.add(it)
+        # the same entries written one by one for constant keys (an unrolled loop over a literal list)
+        consts = []
+        for a in (ast.walk(blk) if blk is not None else []):
+            if isinstance(a, ast.Assign) and U(a.targets[0]).startswith('self.table[') and \
+                    isinstance(a.value, ast.Tuple) and len(a.value.elts) == 2 and U(a.value.elts[0]) == '0' and \
+                    isinstance(a.targets[0].slice, ast.Constant) and U(a.value.elts[1]) == U(a.targets[0].slice) and \
+                    not any(isinstance(q, (ast.For, ast.While)) and q in loops for q in _ancestors(a, blk)):
+                consts.append(U(a.targets[0].slice))
+        if consts:
+            feeders.add('[%s]' % ', '.join(consts))
         norm = lambda t: t.replace('self.', '').replace('.keys()', '').replace(' ', '')
         fset = {norm(x) for x in feeders}
         # alias: self.unique_variant_nonzero_header_words = variant_header_list / variant_header_dict.keys()
@@ -649,6 +662,13 @@ def check_pairing(ctx, rule):
                         'are not both re-written afterwards on the same path'))
     if n_del < 1:
         raise AnalysisError('no removal from headers_dict found (the thorough re-classification)')
+
+
+def _ancestors(node, stop):
+    p = parent(node)
+    while p is not None and p is not stop:
+        yield p
+        p = parent(p)
 
 
 def _enclosing_branch(node, stop):
